@@ -103,9 +103,6 @@ def check_model(ctx, m, e, fa):
         # sequence through pyfaidx
         with open(fa, "w") as fh:
             fh.write(">chrR\n" + dec(m["ref"]) + "\n")
-        for p in (fa + ".fai",):
-            if os.path.exists(p):
-                os.unlink(p)
         for q, want in zip(m["queries"], e["seqs"]):
             f = Feature(seqid="chrR", start=q["s"], end=q["e"], strand=dec(q["strand"]))
             got = f.sequence(fa, use_strand=q["use"])
@@ -154,7 +151,7 @@ def replay(ctx, rec):
     from gffutils.feature import Feature
     fa = ctx.path("ref.fa")
     with open(fa, "w") as fh:
-        fh.write(">chrR\n" + "T" * 80 + "\n")
+        fh.write(">chrR an earlier version of the reference, with a longer header line\n" + "T" * 7 + "\n" + "T" * 7 + "\n")
     try:
         Feature(seqid="chrR", start=1, end=4, strand="+").sequence(fa)
     except Exception:  # noqa
